@@ -24,7 +24,7 @@ func init() {
 			"proceeds to rate limiting. The single exception is the FORMERR answer for a malformed ECS option, which " +
 			"C05 demands and which is written before any access decision.",
 		NotCovered: "what the urlfilter engines behind IsBlockedHost / blockedHostsEng match; effects inside third-party libraries reached from the access decision.",
-		Rules: map[string]string{"C10-R13": "newRequestInfo always stores the finder's answer; methods of the shared access objects do not write to their receiver", "C10-RC": "class rules (error chains, shadowed results, character classes, crossed arguments, pool constructors, array pools, loop completeness, loop-carried buffers, replacing setters, complete clones, Grow arithmetic, pooled-buffer escape, sorted searches, fresh decode targets, per-iteration objects, whole-message copies, codec guards) over the packages this property rests on", "C10-R12": "agdnet.NormalizeDomain is ToLower(TrimSuffix(name, \".\")); hand-written ASCII classes use inclusive boundaries", "C10-R11": "early (default) returns of the profile converters are guarded only by nil / Enabled tests of the input, never by its contents", "C10-R10": "codecs return a nil sub-message only for a nil input; access.Global keeps the whole configured subnet list and IsBlockedIP is a membership test on it",
+		Rules: map[string]string{"C10-R14": "conversion loops of backendpb and filecachepb leave no element out silently (a skipped element has been reported or failed a conversion)", "C10-R15": "GeoIP data is looked up and cached under one read lock, so a refresh cannot leave a location of the previous database in the cache (shared with C05-R7)", "C10-R13": "newRequestInfo always stores the finder's answer; methods of the shared access objects do not write to their receiver", "C10-RC": "class rules (error chains, shadowed results, character classes, crossed arguments, pool constructors, array pools, loop completeness, loop-carried buffers, replacing setters, complete clones, Grow arithmetic, pooled-buffer escape, sorted searches, fresh decode targets, per-iteration objects, whole-message copies, codec guards) over the packages this property rests on", "C10-R12": "agdnet.NormalizeDomain is ToLower(TrimSuffix(name, \".\")); hand-written ASCII classes use inclusive boundaries", "C10-R11": "early (default) returns of the profile converters are guarded only by nil / Enabled tests of the input, never by its contents", "C10-R10": "codecs return a nil sub-message only for a nil input; access.Global keeps the whole configured subnet list and IsBlockedIP is a membership test on it",
 			"C10-R1": "decision tables of isBlockedByNets, matchASNs, IsBlocked, isBlockedByAccess",
 			"C10-R2": "Wrap closure: location stored before the decision; blocked edge silent; other edge proceeds",
 			"C10-R4": "question names are normalised before they are matched against access rules",
@@ -35,6 +35,13 @@ func init() {
 
 func runC10(c *an.Ctx) {
 	classSweep(c, "C10")
+	// ---- R14: the converters of access settings (backend -> internal -> file cache -> internal) keep every subnet,
+	// /0 included; R15: a GeoIP lookup and the cache entry made from it happen under one read lock (shared with C05-R7)
+	if n := sharedNoSilentSkip(c, "C10-R14", "backendpb.", "profiledb/internal/filecachepb."); n < 5 {
+		c.Und("C10-R14", "conversion loops", token.NoPos, "only %d conversion loops found in backendpb and filecachepb", n)
+	}
+	c.Floor("C10-R15", 1)
+	c.Borrow("C10-R15", runC05, func(o an.Obligation) bool { return o.Rule == "C05-R7" && strings.Contains(o.Key, "geoip") })
 	dnssvcWiring(c, "C10-R9", func(dst, src string) bool {
 		n := normName(dst) + " " + normName(src)
 		return strings.Contains(n, "accessmanager") || strings.Contains(n, "geoip")
